@@ -4,7 +4,7 @@ from ..stage import LineStage, replay_line
 from .common import *
 from . import c05, c06
 
-ARTEFACTS = ["G1-consts", "G3-arith", "G3b-regions", "G9-update", "G23-c-wide", "G26-asm-abi", "G31-asm-avx512-compress-wgnu", "G32-asm-sse41-compress-wgnu", "G33-asm-sse2-compress-wgnu", "G34-asm-sse41-hash-many", "G44-asm-sse41-hash-many-wgnu"]
+ARTEFACTS = ["G1-consts", "G3-arith", "G3b-regions", "G9-update", "G23-c-wide", "G26-asm-abi", "G31-asm-avx512-compress-wgnu", "G32-asm-sse41-compress-wgnu", "G33-asm-sse2-compress-wgnu", "G34-asm-sse41-hash-many", "G44-asm-sse41-hash-many-wgnu", "G46-asm-avx2-hash-many"]
 EXTRA_PROPS = [("B3.Props.C01T", "B3/Props/C01T.lean"), ("B3.Props.C06W", "B3/Props/C06W.lean"), ("B3.Props.C07A", "B3/Props/C07A.lean"), ("B3.Props.C05W", "B3/Props/C05W.lean"), ("B3.Props.C05BW", "B3/Props/C05BW.lean"), ("B3.Props.C05MW", "B3/Props/C05MW.lean")]   # theorems about the code translated from the sources
 RULE = ("the C05 kernel calls and the C06 API histories run in harness/c, where every input ends flush against a PROT_NONE page, every "
         "output is produced once flush against an upper and once flush after a lower guard page with 0xAA canaries on the open side, "
